@@ -793,13 +793,18 @@ def generate(unit, canary=False, expand=True):
                 gen = ttoks
             else:
                 status = 'merged'
-                if item.kind != 'fn':
-                    raise LostAnchor('%s :: %s: definition differs from the template (only functions are merged): %s'
+                if item.kind not in ('fn', 'struct'):
+                    raise LostAnchor('%s :: %s: definition differs from the template (only functions and structs are merged): %s'
                                      % (rel, ' :: '.join(path), first_diff(et, es)))
-                gen = merge(ttoks, stoks)
+                if item.kind == 'struct':
+                    gen = rebuild_struct(toks, item, stoks)
+                else:
+                    gen = merge(ttoks, stoks)
                 if gen and gen[0] is not ttoks[0]:
                     gen[0].trivia = ttoks[0].trivia
                 eg = [t.text for t in gen if not t.ghost]
+                if item.kind == 'struct':
+                    eg = drop_trailing_commas(eg)
                 if eg != es:
                     raise LostAnchor('%s :: %s: merge self-check failed' % (rel, ' :: '.join(path)))
             if canary and item.kind == 'fn' and item.body_open is not None:
@@ -869,6 +874,49 @@ def generate(unit, canary=False, expand=True):
     unit.text = ''.join(out_chunks)
     unit.assumes = [m.group(1).strip() for m in re.finditer(r'//@ASSUME[ \t]+(.*)', unit.text)]
     return unit
+
+
+def rebuild_struct(toks, item, stoks):
+    """a struct whose definition differs from the template: the template's attributes are kept, the definition is
+    the source's with every field made pub (R4)"""
+    out = list(toks[item.start:item.hstart])
+    for t in out:
+        t.ghost = True
+    pub = T('pub')[0]
+    pub.ghost = True
+    pub.trivia = toks[item.hstart].trivia if not out else ' '
+    out.append(pub)
+    depth = 0
+    field_start = False
+    angle = 0
+    for k, t in enumerate(stoks):
+        nt = Tok(t.kind, t.text, t.trivia if t.trivia else ' ', t.line)
+        if t.kind == 'punct' and t.text in '({[':
+            depth += 1
+            out.append(nt)
+            field_start = depth == 1 and t.text in '({'
+            continue
+        if t.kind == 'punct' and t.text in ')}]':
+            depth -= 1
+            out.append(nt)
+            field_start = False
+            continue
+        if depth == 1:
+            if t.text == '<':
+                angle += 1
+            elif t.text == '>':
+                angle -= 1
+            elif t.text == '>>':
+                angle -= 2
+        if field_start and depth == 1 and t.text not in (',',) and t.text != '#':
+            p2 = T('pub')[0]
+            p2.ghost = True
+            out.append(p2)
+            field_start = False
+        out.append(nt)
+        if depth == 1 and angle == 0 and t.kind == 'punct' and t.text == ',':
+            field_start = True
+    return out
 
 
 def render_safe(toks):
